@@ -647,7 +647,15 @@ CLAIMS = {
     category="translation_validation",
     text="Go.Check, a Lean checker for the rules go build/go vet enforce on the emitted subset (declared once and before use, typed "
          "assignment/call/return/composite literal, interface satisfaction, unused locals and imports, terminating statements, legal "
-         "identifiers), applied to the REAL Go AST of every accepted corpus and generated program. goIdent_legal (C19) proves identifier "
+         "identifiers), applied to the REAL Go AST of every accepted corpus and generated program. Constants must be REPRESENTABLE (round 11, "
+         "Go spec Constants/Representability; error class constant-overflows with the value and the type): every integer literal at its own "
+         "sized integer type, and - Scope.constFits - every integer constant expression the back end can emit (literal, unary minus on one) at "
+         "the TARGET type wherever assignability is demanded (typed var declaration, assignment, call argument, return value, struct-literal "
+         "field, array/slice element, append element) and as a constant operand against a typed non-constant operand; constant ARITHMETIC "
+         "(127 + 1) is not evaluated here (C10's known findings); witness corpus/C02/int-literal-boundaries.gom puts uint64 literals at and "
+         "above 2^63 and the negative extremes in each of these positions (no C02 stream had one before: the seeded change "
+         "C10-u64-literal-above-i64-max-printed-negative, `var max uint64 = -1`, was a broken tie only and is now a VIOLATION). "
+         "goIdent_legal (C19) proves identifier "
          "legality for all strings. The printed text is tied to that AST on every run (go_pprint output parsed back by goparse.rs with "
          "Go's automatic-semicolon, precedence and composite-literal rules; oracle go-printer). The printer itself (pprint/go_pprint.rs) has a Lean "
          "model (Model/GoPrint.lean: the `pretty` Doc algebra it uses with pretty 0.12's renderer, escape_go_string, go_float_literal, go_type_name/doc, every "
